@@ -15,6 +15,7 @@ func init() {
 			ruleRemoversUpdateTreeSummary(c, "R4")
 			ruleSummaryRendering(c, "R5")
 			ruleRecountFilter(c, "R4c")
+			ruleGlobals(c, "R8")
 			ruleUnconditionalRecursion(c, "R4e", []*ssa.Function{c.A.TreeClean, c.A.TreeRemove, c.A.TreeRoutes}, "the recount and Routes() walk the subtree of every child, handler-less prefix nodes included")
 			ruleExhaustiveWalks(c, "R4d", []*ssa.Function{c.A.TreeClean, c.A.TreeRemove, c.A.TreeRoutes}, "the recount and Routes() walk every node")
 			ruleSummaryLockset(c, "R6")
@@ -24,7 +25,7 @@ func init() {
 	register(&Spec{
 		ID: "C17",
 		Explanation: "Decides: R1 validate-before-mutate — no change of a handler map's key set, of a method summary or of the tree-wide counters reaches an error return of Tree.Add (interprocedural through its static callees); R2 the duplicate test dominates every install of a caller-supplied method (for the installed value, or for every element of the list in a two-pass form); R3 the error of Tree.Add is never dropped by its callers. " +
-			"Not decided: which patterns are ambiguous (pattern identity up to names).",
+			"R6 the segment-level ambiguity verdict is false whenever the two segments differ in kind, constraint, suffix or end flag (symbolic evaluation, one field at a time). Not decided: that every pair identical up to names is found ambiguous (the ambiguousLength arithmetic and the split positions).",
 		Assumptions: commonAssumptions,
 		Run: func(c *Ctx) {
 			ruleValidateBeforeMutate(c, "R1")
@@ -36,6 +37,7 @@ func init() {
 			ruleAddErrorNeverDropped(c, "R3")
 			ruleSummaryIsNotLiveness(c, "R4")
 			ruleSearchTriesEverySibling(c, "R5", []*ssa.Function{c.A.TreeAdd}, "a pattern identical up to parameter names to a live route is always rejected: the ambiguity search tries every sibling")
+			ruleAmbiguityNeedsAgreement(c, "R6")
 		},
 	})
 	register(&Spec{
